@@ -25,12 +25,16 @@ META = {
                   "count = number of loops, polyline = border edges, index map a bijection, component labels); the flagged "
                   "feature set and every derived container of FeatureEdgeDetector.run as functions of the tables it reads; "
                   "the same classification read on the mesh GEOMETRY (normal direction computed from the vertices, unit "
-                  "normals compared without square roots, = angle between adjacent unit normals > 60 degrees / acos(4/5)); "
+                  "normals compared without square roots, = angle between adjacent unit normals > 60 degrees / acos(4/5)), and "
+                  "C15_features_are_geometric_exact_normals: on a normals table holding the exact (rational-length) unit "
+                  "normals the detector model flags exactly that geometric classification; "
                   "PropsC01.v: the tables of C01's model satisfy wf_b (and the detector's wfF) for EVERY oriented manifold "
                   "surface, so no per-case hypothesis remains for the border theorems. TESTED (kernel-evaluated "
                   "correspondence + independent brute-force oracle): that the implementation returns what the model "
                   "returns on generated surfaces (fresh detectors, used meshes, one detector object re-used across runs), "
-                  "that its flagged set is the geometric classification up to a 1e-9 band, wf_b / wf_f on the real tables; "
+                  "that its flagged set is the geometric classification up to a 1e-9 band (the binary64 normals are only close to "
+                  "the exact unit normals, so this step is tested, not proved), also after the caller moved the vertices "
+                  "between two runs; wf_b / wf_f on the real tables; "
                   "corner orders are checked against the angle sums the implementation computed (angles are inputs).",
     "level_note": "Trusted: Coq kernel + vm_compute; the border/features translator; the correspondence harness "
                   "(generators, driver canonicalisation, tolerance band 1e-9 on dot products / angle sums that binary64 "
@@ -40,7 +44,7 @@ META = {
                   "vertex coordinates; Reals axioms of the stdlib only for the angle reading of the thresholds. "
                   "Deliberately left free (the oracle, which alone raises concrete violations, does not constrain them): "
                   "the class and message of the refusal of a start that is not a border vertex, and whether such a start "
-                  "or a mesh without border is refused, answered by an empty result or by a correct walk of some loop; the "
+                  "or a mesh without border is refused or answered by an empty result (a walk of a loop the start is not on IS a violation); the "
                   "vertex at which a cycle begins, its direction, the alignment of the edge list with the vertex list, the "
                   "order of the cycles; the numbering of the polyline vertices, the direction of the returned map, the "
                   "storage order of a polyline edge's two ends, the labels of the component attribute (only constant "
@@ -189,12 +193,14 @@ def feat_case_terms(case, obs):
     pairs = list(zip(case["dets"], obs["dets"]))
     out = []
     ses, so = case.get("session"), obs.get("session")
-    other = []
+    other, moved = [], []
     if ses and so:
         for st, d in zip(ses["steps"], so["steps"]):
-            (pairs if st["on"] == 0 else other).append((st, d))
+            (moved if st.get("moved") else pairs if st["on"] == 0 else other).append((st, d))
     if pairs:
         out.append(fcase_term(obs["tables"], case["exact"], pairs, None if case["normals"] else case))
+    if moved:        # same connectivity tables, the geometry the caller moved the vertices to
+        out.append(fcase_term(obs["tables"], False, moved, dict(case, coords=ses["alt_coords"])))
     if other:
         out.append(fcase_term(so["other_tables"], False, other, None if ses["other"].get("normals") else ses["other"]))
     return out
@@ -343,7 +349,7 @@ def build_bridge(ctx):
 # ---------------------------------------------------------------------- the check
 def run(ctx):
     quick = ctx.tier == "quick"
-    n = 400 if quick else 12000
+    n = 350 if quick else 12000
     ctx.rule = ("oriented manifold polygon surfaces (<= 60/90 faces) from seeds (polygons, grids, annuli, tori, solids, "
                 "unions, hinges with prescribed normal pairs around both thresholds, folded roofs, flat lattices) under "
                 "face deletion / ears / chords / splits / isolated vertices, random renumbering; every border vertex, "
@@ -396,6 +402,8 @@ def run(ctx):
         if c.get("session"):
             ctx.count("runs of one re-used detector object: %d" % len(c["session"]["steps"]))
             ctx.count("re-used detector: %s" % ("two meshes" if c["session"].get("other") else "same mesh"))
+            if c["session"].get("alt_coords"):
+                ctx.count("vertices moved between two runs")
         nontrivial = info.get("loops", 0) >= 1 and len(c["faces"]) >= 2
         ctx.case_seen(strip(c), nontrivial=nontrivial,
                       sample={"faces": c["faces"][:6], "info": info} if len(c["faces"]) < 8 else None)
